@@ -99,7 +99,8 @@ theorem defOK_div (a d : ℚ) : defOK 0 a d (divQ a d) = true := by
   unfold defOK divQ
   by_cases hd : d = 0
   · simp [hd]
-  · simp only [hd, if_false, Bool.and_eq_true, bne_iff_ne, ne_eq, not_false_eq_true, true_and]
+  · simp only [hd, if_false, Bool.and_eq_true, bne_iff_ne, ne_eq, not_false_eq_true, true_and,
+      zero_mul]
     apply near_of_eq; field_simp
 
 theorem defOK_compl (a b d : ℚ) (h : a + b = d) :
@@ -108,7 +109,7 @@ theorem defOK_compl (a b d : ℚ) (h : a + b = d) :
   by_cases hd : d = 0
   · simp [hd]
   · simp only [hd, if_false, Option.map, Bool.and_eq_true, bne_iff_ne, ne_eq, not_false_eq_true,
-      true_and]
+      true_and, zero_mul]
     apply near_of_eq; field_simp; first | done | linarith
 
 /-- **C04 (definitions).** Each rate is its defining quotient (FDR = FP/TOP, FOR = FN/TON,
